@@ -24,10 +24,12 @@ type family struct {
 	flat bool
 	// maxUnit: no returned unit exceeds this many bytes (0 = only bounded by the packet).
 	maxUnit int
+	// cause refines a violation key by its cause, read off the real decoder's state (optional).
+	cause func(dec cu.Decoder, key string) string
 }
 
 var families = []*family{
-	{spec: Mpeg4Audio, mk: m4New, markerCompletes: true, maxUnit: 5 * 1024},
+	{spec: Mpeg4Audio, mk: m4New, markerCompletes: true, maxUnit: 5 * 1024, cause: m4Cause},
 	{spec: Mpeg1Audio, mk: mp1New, markerAlways: true, maxUnit: 1729},
 	{spec: Ac3, mk: ac3New, markerCompletes: true, maxUnit: 3840},
 	{spec: Lpcm, mk: lpcmNew, flat: true},
@@ -356,8 +358,12 @@ func (fam *family) groupFault(c *corr.Ctx, p cu.EncParams, frames []cu.Frame, or
 				same = bytes.Equal(joinFrame(frames[fi]), joinFrame(got))
 			}
 			if bad != "" || !same {
+				key := "resync"
+				if fam.cause != nil {
+					key = fam.cause(dec, key)
+				}
 				fam.viol(c, "C07", "a frame whose packets (and whose predecessor's packets) all arrive in order is returned intact exactly once",
-					"resync", in, fmt.Sprintf("frame %d (arrival positions %d..%d): %s; %d units / %d bytes in, %d units / %d bytes returned; faults %v",
+					key, in, fmt.Sprintf("frame %d (arrival positions %d..%d): %s; %d units / %d bytes in, %d units / %d bytes returned; faults %v",
 						fi, firstPos[fi], firstPos[fi]+counts[fi]-1, bad, len(frames[fi]), frameBytes(frames[fi]), len(got), frameBytes(got), in.Faults))
 			}
 		}
